@@ -147,6 +147,19 @@ def handle (ws : List String) : String :=
         | none => let (o, b) := runSpec c; s!"{showOut o} {hexOrDash b} canary-ok"
       s!"{m}|{s}"
     | none => "bad-op"
+  | "lora" :: entry :: rest =>
+    -- the fetch through LoRa::complete_rx / LoRa::get_rx_result must be the driver's own answer
+    if entry = "complete_rx" ∨ entry = "get_rx_result" then
+      match parseCase rest with
+      | some c =>
+        match c.fault with
+        | some _ => "bad-op"
+        | none =>
+          let (r, _) := runModel c
+          let (o, b) := runSpec c
+          s!"{showOut r.out} {hexOrDash r.buf} canary-ok|{showOut o} {hexOrDash b} canary-ok"
+      | none => "bad-op"
+    else "bad-op"
   | "rxp" :: rest =>
     match parseCase rest with
     | some c => if c.chip = 127 then let (r, p) := runModel c; s!"{showOut r.out} ptr={p}|-" else "bad-op"
